@@ -65,6 +65,9 @@ def run(check):
     check.guarded("TRAV-IDENT", lambda c: T.run_cover(c, "TRAV-IDENT", "OperationTransformVisitor", {T.IDENT}, [], {"visit_mut_expr", "visit_mut_ident", "visit_mut_block_stmt"}, block_override_ok=lambda tr, paths: True, ignore_missing=lambda m: m.endswith("Expr::Arrow.0.body"), also_vtys=tuple(sorted(T.registering_visitors(c.prog)))))
     check.guarded("REFUSAL-GATE", c06.rule_refusal)
     check.guarded("RAW-TEXT", rule_raw_text)
+    # a node kind outside the instrumentation vocabulary is printed in a position nothing has shown it can
+    # stand in (an expression promoted to a statement starts the statement: `function () {}();`, `{ x } = o;`)
+    check.guarded("INVENTORY", X.rule_inventory)
     check.guarded("PAREN-WRAP", X.rule_paren_wrap)
     check.guarded("GROUP", X.rule_hoist_paren)
     from ..engine import Only as _Only
